@@ -357,13 +357,14 @@ namespace OP2Utility::Archive
 		m_IndexTableLength = ReadTag(TagVOLI);
 		m_IndexEntryCount = m_IndexTableLength / sizeof(IndexEntry);
 
-		if (m_IndexTableLength > 0) {
-			m_IndexEntries.resize(m_IndexEntryCount);
-			archiveFileReader.Read(m_IndexEntries.data(), m_IndexTableLength);
+		if (m_HeaderLength < static_cast<uint64_t>(m_StringTableLength) + m_IndexTableLength + 24) {
+			throw std::runtime_error("The index table does not fit in the header of volume " + m_ArchiveFilename);
 		}
 
-		if (m_HeaderLength < m_StringTableLength + m_IndexTableLength + 24) {
-			throw std::runtime_error("The index table does not fit in the header of volume " + m_ArchiveFilename);
+		if (m_IndexEntryCount > 0) {
+			// The index table section may be longer than a whole number of entries. Only read whole entries.
+			m_IndexEntries.resize(m_IndexEntryCount);
+			archiveFileReader.Read(m_IndexEntries.data(), m_IndexEntryCount * sizeof(IndexEntry));
 		}
 
 		CountValidEntries();
